@@ -1,2 +1,5 @@
 import T4V.Props.C01
+import T4V.Props.C08
 import T4V.Props.C11
+import T4V.Props.C13
+import T4V.Props.C17
